@@ -38,6 +38,12 @@ func VHRunnerMarkupPure() {
 	for i := range want.Attributes {
 		a, b := el.Line.Attributes[i], want.Attributes[i]
 		vAssert(a.Name == b.Name && a.Position == b.Position && a.Length == b.Length && a.SourcePosition == b.SourcePosition, "same attribute whatever was shown before")
+		vAssert(len(a.Properties) == len(b.Properties), "same properties whatever was shown before (count)")
+		for k, pv := range b.Properties {
+			qv, ok := a.Properties[k]
+			vAssert(ok && qv.ValueType == pv.ValueType && qv.StringValue == pv.StringValue && qv.IntegerValue == pv.IntegerValue &&
+				qv.BoolValue == pv.BoolValue && vSameFloat(qv.FloatValue, pv.FloatValue), "same properties whatever was shown before")
+		}
 		vReach("with-attributes")
 	}
 }
